@@ -60,6 +60,40 @@ pub fn trivia_after(node: SyntaxNode, start: Option<&SyntaxElement>) -> ChildTri
 	out
 }
 
+/// Trivia located directly after `el` inside its parent node, up to the next significant sibling
+pub fn trivia_following(el: Option<&SyntaxElement>) -> ChildTrivia {
+	let mut out = Vec::new();
+	let mut cur = el.and_then(SyntaxElement::next_sibling_or_token);
+	while let Some(item) = cur {
+		if let Some(trivia) = item.as_token().cloned().and_then(Trivia::cast) {
+			out.push(Ok(trivia));
+		} else if CustomError::can_cast(item.kind()) {
+			out.push(Err(item.to_string()));
+		} else {
+			break;
+		}
+		cur = item.next_sibling_or_token();
+	}
+	out
+}
+/// Trivia located directly before `el` inside its parent node, down to the previous significant sibling
+pub fn trivia_preceding(el: Option<&SyntaxElement>) -> ChildTrivia {
+	let mut out = Vec::new();
+	let mut cur = el.and_then(SyntaxElement::prev_sibling_or_token);
+	while let Some(item) = cur {
+		if let Some(trivia) = item.as_token().cloned().and_then(Trivia::cast) {
+			out.push(Ok(trivia));
+		} else if CustomError::can_cast(item.kind()) {
+			out.push(Err(item.to_string()));
+		} else {
+			break;
+		}
+		cur = item.prev_sibling_or_token();
+	}
+	out.reverse();
+	out
+}
+
 pub fn children_between<T: AstNode + Debug>(
 	node: SyntaxNode,
 	start: Option<&SyntaxElement>,
